@@ -64,6 +64,11 @@ def mapCellsL (g : α → α) : List (Arr α) → List (Arr α)
   | x :: xs => mapCells g x :: mapCellsL g xs
 end
 
+/-- tabulate: the array of shape `sh` whose cell at `idx` is `f idx` -/
+def build : List Nat → (List Nat → α) → Arr α
+  | [], f => leaf (f [])
+  | n :: rest, f => node ((List.range n).map (fun i => build rest (fun idx => f (i :: idx))))
+
 /-! ### orthogonal selection -/
 
 /-- `xs[i]` for every `i` of the index list (out-of-range indices are dropped; the file level
